@@ -1,12 +1,14 @@
 (* C04 -- the chaos threshold is honoured; the fall-back is a lone entry at the threshold whose
    encoding is one of the hints; coherence lies in [0,1]; percents are 100 x the ratios. *)
-From Coq Require Import List NArith String Bool.
+From Coq Require Import List NArith ZArith String Bool.
 From Model Require Import Base Names Flt F32 Matches Detect.
 From Proofs Require Import DetectInv DetectChaos FloatLaws F32Facts.
 From Model Require Import F32.
 From Proofs Require Import F32Laws DetectUtf8 MdFacts.
 From Gen Require Import Tables.
 From Model Require Import Md Md32.
+From Model Require Import Cd Jaro Jaro32.
+From Proofs Require Import JaroFacts CdScoreFacts CoherenceRefined CoherenceCapstone.
 Import ListNotations.
 Open Scope N_scope.
 
@@ -134,3 +136,32 @@ Theorem C04_md_shape_pinned :
                  ("CASE_VARIABLE", CASE_VARIABLE); ("LOWERCASE", LOWERCASE); ("UPPERCASE", UPPERCASE); ("NUMERIC", NUMERIC)]%string.
 Proof. repeat split; reflexivity. Qed.
 Print Assumptions C04_md_shape_pinned.
+
+(* ---- coherence in [0,1] with the score contracts discharged ---- *)
+(* the Jaro score behind every language score (strsim::jaro in binary64, then `as f32`; Model/Jaro.v, Jaro32.v):
+   never NaN, between 0 and 1, for all character sequences whose lengths fit usize *)
+Theorem C04_jaro_score_in_unit_interval :
+  forall a b, len a < 2 ^ 64 -> len b < 2 ^ 64 ->
+    fisnan F32ops (jaro32 a b) = false /\ fle F32ops (fzero F32ops) (jaro32 a b) = true /\ fle F32ops (jaro32 a b) (fone F32ops) = true.
+Proof. exact jaro32_score_ok. Qed.
+Print Assumptions C04_jaro_score_in_unit_interval.
+
+(* the mean of fewer than 2^24 scores in [0,1] is in [0,1] on binary32 (integers up to 2^24 are exact) *)
+Theorem C04_mean_of_unit_scores :
+  forall l : list f32, l <> [] -> (Z.of_nat (List.length l) <= 2 ^ 24)%Z -> Forall unit32 l -> unit32 (fmean F32ops l).
+Proof. exact mean_unit32. Qed.
+Print Assumptions C04_mean_of_unit_scores.
+
+(* coherence lies in [0,1] when the coherence and merge oracles are their models (Model/Cd.v) and the popularity
+   oracle is the Jaro model wherever lengths fit usize: no score contract is assumed any more.  Nothing is assumed
+   about the script-layer and alphabet_languages oracles.  steps < 2^22 bounds the number of chunks below 2^24. *)
+Theorem C04_coherence_in_unit_interval_modelled :
+  forall (R : oracles F32ops) (C : cd_oracles F32ops),
+    (forall t thr langs, coh F32ops R t thr langs = coherence_ratio F32ops C t thr langs) ->
+    (forall ls, merge F32ops R ls = merge_coherence_ratios F32ops ls) ->
+    (forall L t, len t < 2 ^ 64 -> popularity F32ops C L t = popularity32 L t) ->
+    (forall L t s, 2 ^ 64 <= len t -> popularity F32ops C L t = Some s -> unit32 s) ->
+  forall b cfg r, b <> [] -> 1 <= steps F32ops cfg -> steps F32ops cfg < 2 ^ 22 -> from_bytes F32ops R b cfg = Ok r ->
+    forall m, In m r -> good F32ops (coherence F32ops m) /\ fle F32ops (coherence F32ops m) (fone F32ops) = true.
+Proof. exact coherence_in_unit_interval_modelled. Qed.
+Print Assumptions C04_coherence_in_unit_interval_modelled.
